@@ -197,6 +197,34 @@ def run(eng: Engine, ck: Check):
               '(on_state_changed -> [handler ->] remove_peer_connection, conditional on nothing but the connection type and the new state)',
               only_closed and is_peer and not extra, f'guards along the chain: {[unparse(e) + ("" if p else " [negated]") for e, p in gs]}',
               construct='remove on CLOSED')
+    # ... and nothing suspends between the moment the connection reports CLOSED (set_state -> on_state_changed) and its removal:
+    # a listener that suspends (or a cancellation delivered while it does) would leave a CLOSED connection registered for good
+    def first_hops(fn: FuncInfo, target_call: ast.Call, depth: int = 2):
+        """the calls in `fn` through which target_call is reached (target itself if it is in fn)"""
+        if any(x is target_call for x in calls_in(fn.node)):
+            return [(fn, target_call)]
+        out_ = []
+        if depth > 0:
+            for call_ in calls_in(fn.node):
+                for cal in eng.res.callees(call_, fn):
+                    if cal.cls is fn.cls and cal is not fn:
+                        sub = first_hops(cal, target_call, depth - 1)
+                        if sub:
+                            out_ += [(fn, call_)] + sub
+        return out_
+    for fn_, call, gs in rm:
+        bad_s = None
+        for hop_fn, hop_call in first_hops(osc, call):
+            c_ = eng.cfg(hop_fn)
+            for n_ in c_.nodes_for(hop_call):
+                s_ = c_.suspension_between(c_.entry, n_)
+                # the await of the hop itself is the call we follow, not a suspension before it
+                if s_ is not None and not any(x is hop_call for x in ast.walk(s_.ast) if isinstance(x, ast.Call)):
+                    bad_s = (hop_fn, s_)
+        ck.ob('R-C10-REGISTRY', fn_, call, 'the unregistration follows the CLOSED report without a suspension in between (listeners are notified afterwards)',
+              bad_s is None, (f'{bad_s[0].qualname} suspends at line {bad_s[1].lineno} before the registry is updated: the CLOSED event reaches listeners '
+                              'first; a listener that suspends, or a cancellation delivered meanwhile, skips the removal and the connection stays registered')
+              if bad_s else '', construct='remove before notify')
     for caller, call, how in eng.res.callers_of(eng.func(NET, 'Network.remove_peer_connection')):
         ck.ob('R-C10-REGISTRY', caller, call, 'remove_peer_connection is called only on the CLOSED path of on_state_changed',
               any(call is c_ for _, c_, _g in rm), f'called from {caller.qualname}', construct=f'{caller.qualname} unregisters')
